@@ -3,7 +3,7 @@
 import os as _os
 ROOT = _os.path.dirname(_os.path.dirname(_os.path.abspath(__file__)))
 import json, os, re, glob
-for d in sorted(glob.glob(ROOT + '/seeded/*')):
+for d in sorted(x for x in glob.glob(ROOT + '/seeded/*') if os.path.isdir(x)):
     name = os.path.basename(d)
     am = {}
     try:
